@@ -73,6 +73,20 @@ func Build(rt *rapid.T, v e5.Value, sh *Shape) secs2.Item {
 			}
 			ch = append(ch, Build(rt, c, sh))
 		}
+		// nil arguments that carry the ARGUMENT count across a length-field boundary (255/256) while
+		// the real child count stays below it: sizes derived from len(args) instead of the children
+		// kept go wrong exactly here
+		if n := len(v.List); n >= 128 && n <= 255 && rapid.Bool().Draw(rt, "nilpad") {
+			pad := 256 - n + rapid.IntRange(0, 3).Draw(rt, "nilpadExtra")
+			at := rapid.IntRange(0, len(ch)).Draw(rt, "nilpadAt")
+			padded := make([]secs2.Item, 0, len(ch)+pad)
+			padded = append(padded, ch[:at]...)
+			padded = append(padded, make([]secs2.Item, pad)...)
+			padded = append(padded, ch[at:]...)
+			ch = padded
+			nils += pad
+			sh.add("list-nil-across-256")
+		}
 		if nils > 0 {
 			sh.add("list-nil-skipped")
 		}
